@@ -157,6 +157,7 @@ type SSEServer struct {
 	requestID            atomic.Int64                                               // Request ID counter for generating unique request IDs.
 	responses            map[uint64]interface{}                                     // Map for storing response channels.
 	responsesMu          sync.RWMutex                                               // Mutex for responses map.
+	responseOwners       map[uint64]string                                          // Session each pending request was sent to.
 	notificationHandlers map[string]ServerNotificationHandler                       // Map of notification handlers by method name.
 	notificationMu       sync.RWMutex                                               // Mutex for notification handlers map.
 }
@@ -740,10 +741,17 @@ func (s *SSEServer) handleResponseMessage(ctx context.Context, rawMessage json.R
 	// Get the response channel.
 	s.responsesMu.RLock()
 	responseChanInterface, exists := s.responses[requestIDUint]
+	owner := s.responseOwners[requestIDUint]
 	s.responsesMu.RUnlock()
 
 	if !exists {
 		s.logger.Debugf("Received response for unknown request ID: %d", requestIDUint)
+		return
+	}
+
+	// Only the session the request was sent to may answer it.
+	if owner != session.sessionID {
+		s.logger.Errorf("Ignoring response for request ID %d from session %s: the request was sent to another session", requestIDUint, session.sessionID)
 		return
 	}
 
@@ -872,7 +880,7 @@ func (s *SSEServer) processRequestAsync(ctx context.Context, request *JSONRPCReq
 
 	// Check if this is a response to our roots/list request.
 	if s.isRootsListResponse(request) {
-		s.handleRootsListResponse(request)
+		s.handleRootsListResponse(request, session)
 		return
 	}
 
@@ -933,7 +941,7 @@ func (s *SSEServer) isRootsListResponse(request *JSONRPCRequest) bool {
 }
 
 // handleRootsListResponse processes responses from clients to our roots/list requests.
-func (s *SSEServer) handleRootsListResponse(request *JSONRPCRequest) {
+func (s *SSEServer) handleRootsListResponse(request *JSONRPCRequest, session *sseSession) {
 	var responseID interface{} = request.ID
 	var responseResult json.RawMessage
 	var responseError json.RawMessage
@@ -978,10 +986,17 @@ func (s *SSEServer) handleRootsListResponse(request *JSONRPCRequest) {
 	// Get the response channel.
 	s.responsesMu.RLock()
 	responseChanInterface, exists := s.responses[requestIDUint]
+	owner := s.responseOwners[requestIDUint]
 	s.responsesMu.RUnlock()
 
 	if !exists {
 		s.logger.Debugf("Received response for unknown request ID: %d", requestIDUint)
+		return
+	}
+
+	// Only the session the request was sent to may answer it.
+	if session == nil || owner != session.sessionID {
+		s.logger.Errorf("Ignoring response for request ID %d: the request was sent to another session", requestIDUint)
 		return
 	}
 
@@ -1362,12 +1377,17 @@ func (s *SSEServer) SendRequest(ctx context.Context, sessionID string, request *
 		s.responses = make(map[uint64]interface{})
 	}
 	s.responses[requestIDUint] = resultChan
+	if s.responseOwners == nil {
+		s.responseOwners = make(map[uint64]string)
+	}
+	s.responseOwners[requestIDUint] = sessionID
 	s.responsesMu.Unlock()
 
 	// Clean up the response channel when done
 	defer func() {
 		s.responsesMu.Lock()
 		delete(s.responses, requestIDUint)
+		delete(s.responseOwners, requestIDUint)
 		s.responsesMu.Unlock()
 	}()
 
